@@ -27,6 +27,7 @@ func checkC09(c *Ctx) {
 	c.sessionConnectAndWill()
 	c.fanOut(r.HandOver)
 	c.drainBeforeEOF()
+	c.flagBitTables()
 }
 
 func isConstBool(v ssa.Value, want bool) bool {
